@@ -259,11 +259,17 @@ def gen_rate_case(rng, kind=None, max_size=8, scale=None, state=None):
     kind = kind or rng.choice(KINDS)
     st = state or gen_state(rng, scale)
     shape = gen_shape(rng, max_size=max_size)
-    nums = gen_teams_num(rng, st, shape, sigma0_ok=True)
+    tau, lim = gen_percall(rng, st)
+    # sigma = 0 is valid whenever the EFFECTIVE tau (per-call if given, else the model's) is positive
+    eff = st["tau"] if tau[0] == "N" else float(tau[1])
+    nums = gen_teams_num(rng, dict(st, tau=eff), shape, sigma0_ok=True)
+    if eff > 0 and rng.random() < 0.04:
+        # a whole team of sigma-0 players (its variance comes from tau alone)
+        z = rng.randrange(len(nums))
+        nums[z] = [(mu, 0.0 if not isinstance(sg, int) else 0) for mu, sg in nums[z]]
     ids = "same" if rng.random() < 0.05 else "fresh"
     teams = rating_vals(kind, nums, rng, ids=ids)
     ranks, scores = gen_outcome(rng, len(shape))
-    tau, lim = gen_percall(rng, st)
     # sigma = 0 needs an effective tau > 0
     return {"op": "rate", "kind": kind, "st": st, "args": [teams, ranks, scores, tau, lim]}
 
@@ -275,6 +281,11 @@ def gen_predict_case(rng, op=None, kind=None, scale=None):
     nums = gen_teams_num(rng, st, shape)
     if rng.random() < 0.05:
         nums = [[(mu, sg * 1e-3) for mu, sg in t] for t in nums]
+    if rng.random() < 0.06:
+        # teams whose players all have sigma exactly 0 (a prediction needs no positive variance: beta > 0)
+        for z in range(len(nums)):
+            if rng.random() < 0.5:
+                nums[z] = [(mu, 0.0) for mu, _ in nums[z]]
     teams = rating_vals(kind, nums, rng, ids="same" if rng.random() < 0.08 else "fresh")
     c = {"op": op or rng.choice(["pwin", "pdraw", "prank"]), "kind": kind, "st": st, "args": [teams]}
     if rng.random() < 0.3:
